@@ -6,6 +6,7 @@ import (
 	"os"
 	"path/filepath"
 	"strings"
+	"sync"
 	"time"
 
 	"verif/core"
@@ -114,6 +115,35 @@ func runC39(c *core.Ctx) error {
 		)
 	}
 
+	// --replay: only the burst of the saved violation is run again
+	if c.Replay != "" {
+		var rf struct {
+			Replay struct {
+				Burst string `json:"burst"`
+			} `json:"replay"`
+		}
+		lines, err := readLines(c.Replay)
+		if err != nil {
+			return err
+		}
+		if err := json.Unmarshal([]byte(strings.Join(lines, "\n")), &rf); err != nil {
+			return err
+		}
+		var keep []burstCfg
+		for _, b := range bursts {
+			if b.name == rf.Replay.Burst {
+				keep = append(keep, b)
+			}
+		}
+		if len(keep) == 0 && rf.Replay.Burst != "memory-wait-exceeds-read-deadline" {
+			return fmt.Errorf("replay: unknown burst %q", rf.Replay.Burst)
+		}
+		bursts = keep
+		if rf.Replay.Burst == "memory-wait-exceeds-read-deadline" {
+			os.Setenv("VERIF_RPC_PROBE", "bodydeadline")
+		}
+	}
+
 	// Opt-in probe (VERIF_RPC_PROBE=bodydeadline) of the deviation BodyReadDeadline: two handlers are held
 	// for 12.5 s while a 300 KB request of a third connection waits for request memory.  "Excess load
 	// waits" requires it to be served afterwards; the code drops it together with its connection
@@ -181,79 +211,90 @@ func runC39(c *core.Ctx) error {
 	peaks := map[string]any{}
 	var firstTrace []event
 	var firstCfg burstCfg
+	var bmu sync.Mutex
+	var bjobs []func() error
 	for bi, b := range bursts {
-		seed := c.Seed*100 + int64(bi)
-		judge := func(tag string) (key, what string, evs []event, resp burstResp, err error) {
-			evs, resp, race, err := runBurst(c, drvPath, b, seed, tag)
-			if err != nil {
-				return "", "", nil, resp, err
-			}
-			if race != "" {
-				return "", "", nil, resp, fmt.Errorf("race detector report during a burst (C38 decides about races):\n%s", race)
-			}
-			if len(resp.Hung) > 0 {
-				return "burst/" + b.name + "/hung", fmt.Sprintf("requests %v of the burst were never answered (watchdog 30 s); rpc log %v", resp.Hung, resp.RpcLog), evs, resp, nil
-			}
-			v, err := validateTraceBFS(c, "TraceRpcLimits", "TraceRpcLimits.cfg", b.consts(), toNDJSON(evs))
-			if err != nil {
-				return "", "", nil, resp, err
-			}
-			c.Add("states", v.States)
-			c.Add("transitions", v.Gen)
-			if !v.OK {
-				bad := "(invariant of the projection)"
-				if v.InvError == "" && v.Matched < len(evs) {
-					jb, _ := json.Marshal(evs[v.Matched])
-					bad = string(jb)
+		bi, b := bi, b
+		bjobs = append(bjobs, func() error {
+			seed := c.Seed*100 + int64(bi)
+			judge := func(tag string) (key, what string, evs []event, resp burstResp, err error) {
+				evs, resp, race, err := runBurst(c, drvPath, b, seed, tag)
+				if err != nil {
+					return "", "", nil, resp, err
 				}
-				cls := "invariant"
-				if v.InvError == "" && v.Matched < len(evs) {
-					cls = evs[v.Matched].str("ev")
+				if race != "" {
+					return "", "", nil, resp, fmt.Errorf("race detector report during a burst (C38 decides about races):\n%s", race)
 				}
-				return "burst/" + b.name + "/" + cls, fmt.Sprintf("burst %s (MaxWorkers=%d, RequestBufSize=%d, limit=%d): recorded history is not a behaviour of the limits projection of RpcCalls; first unexplained event: %s %s; rpc log: %v",
-					b.name, b.env.MaxWorkers, b.bufSpec, b.memSpec, bad, v.InvError, resp.RpcLog), evs, resp, nil
+				if len(resp.Hung) > 0 {
+					return "burst/" + b.name + "/hung", fmt.Sprintf("requests %v of the burst were never answered (watchdog 30 s); rpc log %v", resp.Hung, resp.RpcLog), evs, resp, nil
+				}
+				v, err := validateTraceBFS(c, "TraceRpcLimits", "TraceRpcLimits.cfg", b.consts(), toNDJSON(evs))
+				if err != nil {
+					return "", "", nil, resp, err
+				}
+				c.Add("states", v.States)
+				c.Add("transitions", v.Gen)
+				if !v.OK {
+					bad := "(invariant of the projection)"
+					if v.InvError == "" && v.Matched < len(evs) {
+						jb, _ := json.Marshal(evs[v.Matched])
+						bad = string(jb)
+					}
+					cls := "invariant"
+					if v.InvError == "" && v.Matched < len(evs) {
+						cls = evs[v.Matched].str("ev")
+					}
+					return "burst/" + b.name + "/" + cls, fmt.Sprintf("burst %s (MaxWorkers=%d, RequestBufSize=%d, limit=%d): recorded history is not a behaviour of the limits projection of RpcCalls; first unexplained event: %s %s; rpc log: %v",
+						b.name, b.env.MaxWorkers, b.bufSpec, b.memSpec, bad, v.InvError, resp.RpcLog), evs, resp, nil
+				}
+				return "", "", evs, resp, nil
 			}
-			return "", "", evs, resp, nil
-		}
-		key, what, evs, resp, err := judge(b.name)
-		if err != nil {
-			return err
-		}
-		if key != "" {
-			key2, _, _, _, err := judge(b.name + "-repro")
+			key, what, evs, resp, err := judge(b.name)
 			if err != nil {
 				return err
 			}
-			if key2 == "" {
-				return fmt.Errorf("burst %s: violation not reproduced in a second run (inconclusive): %s", b.name, what)
+			if key != "" {
+				key2, _, _, _, err := judge(b.name + "-repro")
+				if err != nil {
+					return err
+				}
+				if key2 == "" {
+					return fmt.Errorf("burst %s: violation not reproduced in a second run (inconclusive): %s", b.name, what)
+				}
+				c.Violate(key, what, map[string]any{"burst": b.name, "env": b.env, "conns": b.conns, "calls": b.calls, "sizes": b.sizes, "cap": b.cap, "seed": seed})
+				return nil
 			}
-			c.Violate(key, what, map[string]any{"burst": b.name, "env": b.env, "conns": b.conns, "calls": b.calls, "sizes": b.sizes, "cap": b.cap, "seed": seed})
-			continue
-		}
-		c.Add("traces_validated_against_impl", 1)
-		c.Add("trace_events_validated", len(evs))
-		c.Add("evaluations", resp.Calls)
-		peaks[b.name] = map[string]any{"requests": resp.Calls, "peak_running": resp.Peak, "cap": b.cap, "piled_up": resp.Piled,
-			"server_limit_bytes": resp.Limit, "server_max_workers": resp.MaxWorkers}
-		c.Logf("burst %s: %d requests, peak running %d (cap %d), piled=%v, server limit %d", b.name, resp.Calls, resp.Peak, b.cap, resp.Piled, resp.Limit)
-		if resp.Limit != int64(b.memSpec) {
-			return fmt.Errorf("burst %s: server reports request memory limit %d, the specification was instantiated with %d", b.name, resp.Limit, b.memSpec)
-		}
-		// no vacuity: the burst must really have piled up against the limit
-		if !resp.Piled || resp.Peak < b.cap {
-			return fmt.Errorf("vacuous: burst %s did not pile up (peak %d, expected cap %d, piled=%v)", b.name, resp.Peak, b.cap, resp.Piled)
-		}
-		if firstTrace == nil {
-			firstTrace, firstCfg = evs, b
-			for _, e := range evs {
-				if e.str("ev") == "enter" || e.str("ev") == "sample" {
-					c.Sample(e)
-					if len(evs) > 0 && e.str("ev") == "sample" {
-						break
+			bmu.Lock()
+			defer bmu.Unlock()
+			c.Add("traces_validated_against_impl", 1)
+			c.Add("trace_events_validated", len(evs))
+			c.Add("evaluations", resp.Calls)
+			peaks[b.name] = map[string]any{"requests": resp.Calls, "peak_running": resp.Peak, "cap": b.cap, "piled_up": resp.Piled,
+				"server_limit_bytes": resp.Limit, "server_max_workers": resp.MaxWorkers}
+			c.Logf("burst %s: %d requests, peak running %d (cap %d), piled=%v, server limit %d", b.name, resp.Calls, resp.Peak, b.cap, resp.Piled, resp.Limit)
+			if resp.Limit != int64(b.memSpec) {
+				return fmt.Errorf("burst %s: server reports request memory limit %d, the specification was instantiated with %d", b.name, resp.Limit, b.memSpec)
+			}
+			// no vacuity: the burst must really have piled up against the limit
+			if !resp.Piled || resp.Peak < b.cap {
+				return fmt.Errorf("vacuous: burst %s did not pile up (peak %d, expected cap %d, piled=%v)", b.name, resp.Peak, b.cap, resp.Piled)
+			}
+			if firstTrace == nil {
+				firstTrace, firstCfg = evs, b
+				for _, e := range evs {
+					if e.str("ev") == "enter" || e.str("ev") == "sample" {
+						c.Sample(e)
+						if len(evs) > 0 && e.str("ev") == "sample" {
+							break
+						}
 					}
 				}
 			}
-		}
+			return nil
+		})
+	}
+	if err := parallel(3, bjobs); err != nil {
+		return err
 	}
 	c.Set("bursts", peaks)
 	c.Set("distinct_nontrivial", len(peaks))
